@@ -110,6 +110,10 @@ def _distribute_try(computation_graph: ComputationGraph,
             var_hosted.update({c: a})
             agents_capa[a] -= computation_memory(
                 computation_graph.computation(c))
+        if agents_capa[a] < 0:
+            raise ImpossibleDistributionException(
+                'Computations that must be hosted on {} exceed its '
+                'capacity'.format(a))
 
     # First mimic original secp adhoc behavior
     for n in nodes:
